@@ -32,6 +32,7 @@ type Contract struct {
 	Ensures  []*Clause
 	Modifies []*Clause
 	Loops    map[int]*LoopSpec
+	Calls    []*CallSpec
 	Trusted  bool // contract assumed at call sites, body not verified
 	Pure     bool
 	BV       bool
@@ -381,6 +382,22 @@ func (e *Engine) LoadContractFile(file, pkgPath string) error {
 				default:
 					return fail(fmt.Errorf("loop clause %q", w3))
 				}
+			case "calls":
+				cs, err := parseCallSpec(rest)
+				if err != nil {
+					return fail(err)
+				}
+				cur.Calls = append(cur.Calls, cs)
+			case "where":
+				if len(cur.Calls) == 0 {
+					return fail(fmt.Errorf("where without calls"))
+				}
+				c, err := parseClause(rest)
+				if err != nil {
+					return fail(err)
+				}
+				cs := cur.Calls[len(cur.Calls)-1]
+				cs.Where = append(cs.Where, c)
 			case "trusted":
 				cur.Trusted = true
 			case "pure":
